@@ -49,6 +49,14 @@ var Texts = []string{"BL", "1.2.3", "sha-256", "TF-M_SHA256MemPreXIP", "ünïcö
 	// text that equals a member name / a profile name
 	"psa-profile", "eat-profile", "psa-nonce", "PSA_IOT_PROFILE_1", "http://arm.com/psa/2.0.0", "null", "true", "{}", "[]"}
 
+// LongTexts: strings whose length in octets and in characters differ widely
+// and straddle 64 / 255 / 256 (code that measures one and cuts by the other
+// goes wrong on these).
+var LongTexts = []string{
+	strings.Repeat("é", 33), strings.Repeat("証", 22), strings.Repeat("é", 32), strings.Repeat("x", 63) + "é", strings.Repeat("x", 64) + "é",
+	strings.Repeat("𝔘", 17), "http://example.com/" + strings.Repeat("ü", 40), strings.Repeat("é", 128), strings.Repeat("証", 86), strings.Repeat("a", 65), strings.Repeat("a", 64),
+}
+
 func (g *Gen) Text() string { return Texts[g.R.Intn(len(Texts))] }
 func (g *Gen) NonEmptyText() string {
 	for {
@@ -183,9 +191,21 @@ func coarseLen(ok bool, n int, nearest []int) string {
 	return "wrong-shape"
 }
 
+// SweepLens are the byte-string lengths every length-constrained claim is
+// tried with: every length 0..80, and lengths that are congruent to the legal
+// ones modulo 2^8 / 2^16 (a length check done in a narrower integer type
+// accepts those).
+func SweepLens() []int {
+	var l []int
+	for n := 0; n <= 80; n++ {
+		l = append(l, n)
+	}
+	return append(l, 255, 256, 257, 264, 288, 289, 304, 320, 544, 65536+8, 65536+32, 65536+33, 65536+48, 65536+64)
+}
+
 func bytesVariants(set func(a *Claims, b *[]byte), ok func(p, n int) bool, p int, mk func(g *Gen, n int) []byte, near []int) []Variant {
 	vs := []Variant{{Name: "absent", Coarse: "absent", Apply: func(a *Claims, g *Gen) { set(a, nil) }}}
-	for n := 0; n <= 80; n++ {
+	for _, n := range SweepLens() {
 		n := n
 		vs = append(vs, Variant{Name: fmt.Sprintf("len%d", n), Coarse: coarseLen(ok(p, n), n, near),
 			Apply: func(a *Claims, g *Gen) { b := mk(g, n); set(a, &b) }})
@@ -248,7 +268,7 @@ func (g *Gen) CompFromCode(code [5]int) Comp {
 	if code[4] == 1 {
 		c.Desc = sp(g.Text())
 	}
-	badLens := []int{0, 1, 31, 33, 47, 49, 63, 65, 80}
+	badLens := []int{0, 1, 31, 33, 47, 49, 63, 65, 80, 288, 304, 320, 65536 + 32}
 	switch code[1] {
 	case 1:
 		c.MVal = g.bp(g.HashLen())
@@ -379,7 +399,7 @@ func Variants(p int, claim string) []Variant {
 		return vs
 	case "nonce":
 		vs := []Variant{{Name: "absent", Coarse: "absent", Apply: func(a *Claims, g *Gen) { a.HasNonce, a.Nonces = false, nil }}}
-		for n := 0; n <= 80; n++ {
+		for _, n := range SweepLens() {
 			n := n
 			vs = append(vs, Variant{Name: fmt.Sprintf("len%d", n), Coarse: coarseLen(isHashLen(n), n, hashLens),
 				Apply: func(a *Claims, g *Gen) { a.HasNonce, a.Nonces = true, [][]byte{g.Bytes(n)} }})
